@@ -3,7 +3,7 @@
      gapic/utils/options.py      Options.build                      -> options_build
      gapic/schema/naming.py      Naming.build, module_name, ...     -> naming_build
      gapic/cli/generate.py       generate (target package)          -> generate
-     gapic/schema/api.py         API.build (file_to_generate by package string prefix, file-name sanitising),
+     gapic/schema/api.py         API.build (file_to_generate by in_package, file-name sanitising),
                                  API.protos / services / subpackages, Proto.module_name, Address.subpackage
      gapic/generator/generator.py  get_response, _render_template, _is_desired_transport, _get_file (name only),
                                  _get_filename                      -> response, render, sgate, get_filename
@@ -311,11 +311,11 @@ Definition protos_of (a : rapi) (view : list string) : list unit_ :=
   filter (fun u => is_prefix_list view (u_sub u)) (ra_protos a).
 Definition services_of (a : rapi) (view : list string) : list (string * list string) :=
   flat_map (fun u => map (fun s => (s, u_sub u)) (u_services u)) (rev (protos_of a view)).
-(* API.subpackages: sorted set of subpackage[0] (sic) of the protos strictly below the view *)
+(* API.subpackages: sorted set of subpackage[level] of the protos strictly below the view *)
 Definition sub_names (a : rapi) (view : list string) : list string :=
   let level := List.length view in
   flat_map (fun u => if Nat.ltb level (List.length (u_sub u)) && list_eqb String.eqb (firstn level (u_sub u)) view
-                     then match u_sub u with x :: _ => [x] | [] => [] end else []) (protos_of a view).
+                     then match skipn level (u_sub u) with x :: _ => [x] | [] => [] end else []) (protos_of a view).
 Section StrSort.
   Fixpoint sinsert (x : string) (l : list string) : list string :=
     match l with [] => [x] | y :: l' => if String.leb x y then x :: l else y :: sinsert x l' end.
@@ -389,12 +389,15 @@ Definition candidates (templates : list string) (a : rapi) (o : ropts) : res (li
   bind (instances templates a o) (fun l => Ok (dedup (map (inst_name a) l))).
 
 (* ------------------------------------------------------------------ generate.py + API.build, names only *)
+(* in_package of API.build: the package itself or one of its sub-packages (everything when no package is given) *)
+Definition in_pkg (package p : string) : bool :=
+  is_empty package || String.eqb p package || starts_with (package ++ ".") p.
 Definition build_rapi (files : list pfile) (to_generate : list string) (o : options) : res rapi :=
   let package := rstrip_dots (commonprefix (map pf_package (filter (fun f => mem_str (pf_name f) to_generate) files))) in
-  let targets0 := filter (fun f => starts_with package (pf_package f)) files in
+  let targets0 := filter (fun f => in_pkg package (pf_package f)) files in
   bind (naming_build (map pf_package targets0) o) (fun n =>
     let files' := sanitize_all [] files in
-    let targets := filter (fun f => starts_with package (pf_package f)) files' in
+    let targets := filter (fun f => in_pkg package (pf_package f)) files' in
     let sub f := subpackage_of (n_proto_package n) (pf_package f) in
     Ok {| ra_ns := ns_path n; ra_name := module_name n; ra_version := n_version n; ra_nv := versioned_module_name n;
           ra_protos := map (fun f => {| u_module := proto_module (pf_name f); u_sub := sub f;
